@@ -43,7 +43,8 @@ def shards(quick):
         # verdict at 2-4 blocks; long identities / messages are the recorded direction's business (exact bytes there)
         return [
             # every encoding of the six key kinds, exact
-            shard("codec", Masters=q(["s", "e"]), MasterClasses=q(["r1", "nm2"]), CodecKinds=q(ALL_KINDS), UidLens=S([0, 63]), Hids=S([3]), workers=3),
+            shard("codecS", MaxOps=2, Masters=q(["s"]), MasterClasses=q(["r1", "nm2"]), CodecKinds=q(ALL_KINDS[:3]), UidLens=S([0, 63, 200]), Hids=S([1, 255]), workers=2),
+            shard("codecE", MaxOps=2, Masters=q(["e"]), MasterClasses=q(["r1", "nm2"]), CodecKinds=q(ALL_KINDS[3:]), UidLens=S([0, 63, 200]), Hids=S([3, 0]), workers=2),
             # every single-byte corruption of a signature (ASN.1: 104 bytes; h || S: 97 bytes)
             shard("sigtamA", Masters=q(["s"]), SignHows=q(["asn1"]), MLens=S([16]), Variants=q(ALL_VARIANTS), Tamper=T, TamperAll=T, Masks=S([1, 128])),
             shard("sigtamF", Masters=q(["s"]), SignHows=q(["func"]), MLens=S([16]), Variants=q(ALL_VARIANTS), Tamper=T, TamperAll=T, Masks=S([1, 128])),
@@ -66,7 +67,8 @@ def shards(quick):
             shard("mix", MaxOps=6, MaxArts=2, Masters=q(["s", "e"]), SignHows=q(["asn1"]), WrapHows=q(["func"]), ModeSet=q(["cbc"]), EncSet=q(["asn1"]), MLens=S([16]), Variants=q(["ok", "wrongid"]), workers=4),
         ]
     return [
-        shard("codec", Masters=q(["s", "e"]), MasterClasses=q(["r1", "r2", "one", "nm2"]), CodecKinds=q(ALL_KINDS), UidLens=S([0, 1, 63, 64, 127, 200]), Hids=S([0, 1, 3, 255]), workers=4),
+        shard("codecS", MaxOps=2, Masters=q(["s"]), MasterClasses=q(["r1", "r2", "one", "nm2"]), CodecKinds=q(ALL_KINDS[:3]), UidLens=S([0, 1, 63, 64, 127, 200]), Hids=S([0, 1, 3, 255]), workers=4),
+        shard("codecE", MaxOps=2, Masters=q(["e"]), MasterClasses=q(["r1", "r2", "one", "nm2"]), CodecKinds=q(ALL_KINDS[3:]), UidLens=S([0, 1, 63, 64, 127, 200]), Hids=S([0, 1, 3, 255]), workers=4),
         shard("sigtamA", Masters=q(["s"]), SignHows=q(["asn1"]), Variants=q(ALL_VARIANTS), Tamper=T, TamperAll=T, Masks=S([1, 2, 128, 255])),
         shard("sigtamF", Masters=q(["s"]), SignHows=q(["func"]), Variants=q(ALL_VARIANTS), Tamper=T, TamperAll=T, Masks=S([1, 2, 128, 255])),
         shard("sigtamM", Masters=q(["s"]), MasterClasses=q(["nm2"]), SignHows=q(["method"]), UidLens=S([64]), MLens=S([1]), RCs=q(["nm1"]), Variants=q(ALL_VARIANTS), Tamper=T, TamperAll=T, Masks=S([4, 64])),
@@ -253,6 +255,22 @@ def run(ctx):
         raise core.Infra("recorded histories miss KDF alignments: no multi-lane class for %s, not both classes for %s" % (sorted(both), sorted(seam)))
     ctx.extra["kdf_alignment_cover"] = {k: len(v) for k, v in cover.items()}
     ctx.count_distinct(ref_file, rec_key)
+    # observations outside the statement of C10 (recorded in the evidence, never a verdict)
+    comp = {"uncompressed": 0, "compressed": 0}
+    for line in core._lines(ref_file):
+        e = json.loads(line)
+        if e["op"] in ("master", "user") and not e["err"]:
+            comp["uncompressed" if (e.get("pubcomp") or e.get("comp")) == (e.get("pubasn1") or e.get("asn1")) else "compressed"] += 1
+    ctx.extra["observations"] = {"MarshalCompressedASN1_point_form": comp}
+    k1 = ctx.record("sm9-k1zero", 1, name="sm9-k1zero")
+    if k1 is not None:
+        st = ctx.tlc("Trace_Sm9", {"TraceFile": core.tla_str(k1)}, spec="TraceSpec", postcondition="TraceAccepted", workers=1, timeout=900,
+                     name="Trace_Sm9_k1zero_observation", allow_fail=True)
+        ctx.tlc_runs.remove(st)
+        verdict = "follows" if st["ok"] else ("deviates" if "TraceAccepted" in st["out_tail"] else "not decided")
+        ctx.extra["observations"]["GMT0044.4_7.1_A6_K1_all_zero_draw_again"] = (
+            verdict + ": for a nonce whose K1 is 00 (one-byte message, found by search through the library) the standard's encryption draws again; "
+            "the library tests the whole K1||K2 (proposed_fixes/C10-sm9-encrypt-k1-zero.diff)")
 
     # ---- C continued: replay
     mct.join()
